@@ -1095,6 +1095,26 @@ func (g *Gen) nativeModel(ce callee, c *ssa.CallCommon, results []TV) bool {
 	name := ce.fn.String()
 	switch name {
 	case "fmt.Sprintf", "fmt.Errorf":
+	case "errors.As":
+		// errors.As(err, &target): may store into *target; when it reports true the target holds an error
+		if len(c.Args) == 2 {
+			if mi, ok := c.Args[1].(*ssa.MakeInterface); ok {
+				if pt, ok := mi.X.Type().Underlying().(*types.Pointer); ok {
+					elem := pt.Elem()
+					if !isStructT(elem) && !isArrayT(elem) {
+						h := g.cellHeap(elem)
+						nv := g.fresh("as.target", sortOf(elem))
+						g.assignHeap(h, "(store "+g.heap(h)+" "+g.v(mi.X)+" "+nv+")")
+						if sortOf(elem) == SInt && len(results) == 1 {
+							g.guard(implies(results[0].T, not(eq(nv, "0"))))
+							g.guard(implies(and(results[0].T, not(eq(nv, "0"))), "(<= (atime "+nv+") "+g.heap("alloc")+")"))
+						}
+						return true
+					}
+				}
+			}
+		}
+		return false
 	default:
 		return false
 	}
